@@ -792,3 +792,16 @@ Proof.
     constructor; [|exact IH2]. simpl. rewrite Ho in G. simpl in G.
     apply otoken_eqb_eq in G. congruence.
 Qed.
+
+(* lock(timeout): what it reports is the truth at the moment it returns *)
+Lemma lock_retry_truth gaps : forall s p t,
+  (snd (lock_retry s p t gaps) = true <-> owner (fst (lock_retry s p t gaps)) = Some t) /\
+  (snd (lock_retry s p t gaps) = true -> ptok (fst (lock_retry s p t gaps)) p = Some t).
+Proof.
+  induction gaps as [|g r IH]; intros s p t; cbn [lock_retry];
+    destruct (lock_view s p t) as [b [Hb [Hiff [Hp _]]]]; rewrite Hb; destruct b; cbn [fst snd].
+  - split; [split; intro; [apply Hiff; reflexivity | reflexivity] | intro; apply Hp; reflexivity].
+  - split; [split; intro H; [discriminate | apply Hiff in H; discriminate] | discriminate].
+  - split; [split; intro; [apply Hiff; reflexivity | reflexivity] | intro; apply Hp; reflexivity].
+  - apply IH.
+Qed.
